@@ -56,8 +56,18 @@ def _nd(a):
     return ("nd", a.dtype.str, tuple(a.shape), hashlib.sha1(raw).hexdigest())
 
 
+def kind_of(x):
+    """'Scores' / 'GroupScores' / 'ConfusionMatrix' / 'ROCCurve' / 'BiasFrame' for library objects of
+    either package copy (the copy under test or the pristine twin copy), else None."""
+    t = type(x)
+    if "score_analysis" in (getattr(t, "__module__", "") or ""):
+        for c in t.__mro__:
+            if c.__name__ in ("GroupScores", "Scores", "ConfusionMatrix", "ROCCurve", "BiasFrame"):
+                return c.__name__
+    return None
+
+
 def canon(x):
-    L = lib()
     if isinstance(x, np.ndarray):
         return _nd(x)
     if isinstance(x, (bool, np.bool_)):
@@ -74,13 +84,14 @@ def canon(x):
         return (type(x).__name__, tuple(canon(v) for v in x))
     if isinstance(x, dict):
         return ("dict", tuple((repr(k), canon(v)) for k, v in x.items()))
-    if isinstance(x, L.ConfusionMatrix):
+    kd = kind_of(x)
+    if kd == "ConfusionMatrix":
         return ("cm", _nd(x.matrix), _nd(np.asarray(x.classes)), bool(x.binary))
-    if isinstance(x, L.GroupScores):
+    if kd == "GroupScores":
         return ("gscores", fingerprint(x))
-    if isinstance(x, L.Scores):
+    if kd == "Scores":
         return ("scores", fingerprint(x))
-    if isinstance(x, L.ROCCurve):
+    if kd == "ROCCurve":
         return ("roc", canon(x.fnr), canon(x.fpr), canon(x.thresholds), canon(x.fnr_ci), canon(x.fpr_ci))
     if isinstance(x, BaseException):
         return ("exc", type(x).__name__)
@@ -91,7 +102,7 @@ def canon(x):
             return ("df", repr(list(x.index)), repr(list(x.columns)), _nd(x.to_numpy()))
     except ImportError:  # pragma: no cover
         pass
-    if isinstance(x, L.BiasFrame):
+    if kd == "BiasFrame":
         return ("bias", canon(x.values), canon(x.alpha), canon(x.lower), canon(x.upper))
     return ("repr", repr(x))
 
@@ -114,21 +125,21 @@ def fp_array(a):
 
 
 def fingerprint(o):
-    L = lib()
     if isinstance(o, np.ndarray):
         return fp_array(o)
-    if isinstance(o, L.GroupScores):
+    kd = kind_of(o)
+    if kd == "GroupScores":
         return (
             "G", fp_array(o.pos), fp_array(o.neg), fp_array(o.pos_groups), fp_array(o.neg_groups),
             fp_array(o.groups), int(o.nb_easy_pos), int(o.nb_easy_neg),
             o.score_class.value, o.equal_class.value,
         )
-    if isinstance(o, L.Scores):
+    if kd == "Scores":
         return (
             "S", fp_array(o.pos), fp_array(o.neg), repr(o.nb_easy_pos), repr(o.nb_easy_neg),
             o.score_class.value, o.equal_class.value,
         )
-    if isinstance(o, L.ConfusionMatrix):
+    if kd == "ConfusionMatrix":
         return ("CM", fp_array(o.matrix), fp_array(np.asarray(o.classes)), bool(o.binary))
     try:
         import pandas as pd
@@ -165,10 +176,10 @@ def _callers(d):
     return c
 
 
-def build_scores(spec):
+def build_scores(spec, L=None):
     """spec -> (object, caller_arrays dict). Caller arrays are kept so that the
     simulator can check that the library never writes to them."""
-    L = lib()
+    L = L or lib()
     dt = spec.get("dtype", "float64")
     pos = np.asarray(spec["pos"], dtype=dt)
     neg = np.asarray(spec["neg"], dtype=dt)
@@ -191,8 +202,8 @@ def build_scores(spec):
     return o, callers
 
 
-def build_group_scores(spec):
-    L = lib()
+def build_group_scores(spec, L=None):
+    L = L or lib()
     dt = spec.get("dtype", "float64")
     gdt = spec.get("gdtype", "str")
     pos = np.asarray(spec["pos"], dtype=dt)
